@@ -294,7 +294,7 @@ def survey(props, repo, funcs=None, jobs=16, kinds=None):
 
 NOISE = ("debug_log", "info_log", "warning_log", "error_log", "self._debug", "self._info", "configure_logging", "`del kwargs`",
          "`del mode`", "`self._debug`", "raise AssertionError", "raise ConfigFileError", "self.log.", "raise_config_error",
-         "ignorable_runtime_exception", "`self._info`", "debug_to_console")
+         "ignorable_runtime_exception", "send_driver_event", "`self._info`", "debug_to_console")
 
 
 def _noise(r):
